@@ -323,6 +323,8 @@ class ModelBase:
                 return AV(ty=name, elts=list(a0.elts), deps=d, fresh=True, elem=a0.elem)
             el = self.iter_item(interp, st, a0, None, None)
             out = AV(ty=name, elem=el, deps=d, fresh=True, maybe_empty=a0.maybe_empty, of=a0 if a0.ty in ('ndarray', 'set', 'dict') else None)
+            if a0.voxel and a0.selected_by is not None:
+                out = out.w(voxel=True, selected_by=a0.selected_by, maybe_empty=None)
             if a0.ty == 'ndarray':
                 out = out.w(geo=a0.geo, idx=a0.idx, axes=a0.axes, mono=a0.mono)
             return out
@@ -338,6 +340,12 @@ class ModelBase:
                 return AV(ty='dict', keyelem=self.iter_item(interp, st, ins[0], None, None) if ins else None,
                           elem=self.iter_item(interp, st, ins[1], None, None) if len(ins) > 1 else None,
                           deps=d, fresh=True)
+            if a0 is not None and a0.ty in ('list', 'tuple', 'generator', 'set'):
+                # dict(pairs): a sequence of (key, value) tuples
+                pr = self.iter_item(interp, st, a0, None, None)
+                if pr is not None and pr.ty == 'tuple' and pr.elts is not None and len(pr.elts) == 2:
+                    return AV(ty='dict', keyelem=pr.elts[0], elem=pr.elts[1], deps=d, fresh=True, maybe_empty=a0.maybe_empty, overwrite=True)
+                return AV(ty='dict', deps=d, fresh=True, open_kw=True)
             return AV(ty='dict', kw=dict(kwargs), deps=d, fresh=True)
         if name in ('int', 'float'):
             if a0 is None:
@@ -513,6 +521,10 @@ class ModelBase:
         if it is None:
             return TOP
         ty = it.ty
+        if it.argwhere_of is not None and ty in ('list', 'ndarray', 'tuple'):
+            # a row of np.argwhere(mask): the index tuple of one element the mask selects
+            return AV(ty='ndarray' if ty == 'ndarray' else 'list', dtype='int', voxel=True, selected_by=it.argwhere_of, deps=it.deps,
+                      elem=AV(ty='int'))
         if ty in ('list', 'tuple', 'set', 'generator', 'range'):
             if it.elts:
                 return join_all(it.elts)
